@@ -245,6 +245,10 @@ def check(ctx):
     rule_constructible(ctx)
     rule_no_write(ctx)
     rule_levels(ctx)
+    # from_json hands the labels over as plain lists: the constructor's label-list form must take them whatever their length (shared with C05)
+    from . import c05
+    ctx.rule('R6', 'constructor accepts axes=[label lists] by element type (empty lists included)', 1)
+    c05.rule_label_list_dispatch(ctx, 'R6')
     ctx.not_decided += ['everything that depends on the netCDF4 library: dtype mapping, vlen string encoding, mode="a", NETCDF3 down-casting, dimension order on disk',
                         'JSON representability of values (json.dumps is external)']
     ctx.trusted += ['json.dumps / json.loads round-trip lists, numbers and strings', 'ndarray.tolist()', 'netCDF4 calls do not write their Python arguments']
